@@ -136,9 +136,9 @@ def device_component_part(ck, tier, rng):
     import clevel
     import itertools as it
     hs = []
-    # exhaustive: one port, 4 updates, each: omit / value 0 / value 1
-    for seq in it.product([None, 0, 1], repeat=4 if tier == "quick" else 6):
-        hs.append([({}, ({} if v is None else {1: v}), None) for v in seq])
+    # exhaustive: one port, 4 updates, each: omit / value None / value 0 / value 1
+    for seq in it.product(["omit", None, 0, 1], repeat=4 if tier == "quick" else 6):
+        hs.append([({}, ({} if v == "omit" else {1: v}), None) for v in seq])
     for _ in range(400 if tier == "quick" else 5000):
         hs.append(clevel.gen_history(rng))
     runs = [clevel.run_dc(h) for h in hs]
